@@ -53,6 +53,9 @@ func runC01(p *core.Program, r *core.Report) {
 	c01R7(p, r)
 	// R8: "the declarations the generator rendered": each (package, generator) renders into its own context and file
 	chainRules(p, r, "R8", "C05", []string{"C05.R2", "C05.R3"}, "every generator of a package renders into a context and file of its own")
+	// R11: "gofumpt for the module's language version": the version and module path handed to gofumpt are the module's as
+	// go list reports them - nothing edits the loaded module record (C13.R9)
+	chainRules(p, r, "R11", "C13", []string{"C13.R9"}, "the loaded module record is not edited")
 	c01R9(p, r, w, parse[0], fileV)
 	c01R10(p, r, w)
 }
